@@ -569,7 +569,7 @@ pub fn feature_mix_program(rng: &mut Rng) -> Vec<u8> {
     let clean = rng.chance(1, 2);
     for i in 0..nblocks {
         // (block 16, addresses beyond 16 bits, a little more often)
-        let mut kind = if rng.chance(1, 12) { 16 } else { rng.below(23) };
+        let mut kind = if rng.chance(1, 12) { 16 } else { rng.below(25) };
         if clean && banked && kind == 16 {
             kind = 4;
         }
@@ -655,6 +655,19 @@ pub fn feature_mix_program(rng: &mut Rng) -> Vec<u8> {
             21 => {
                 // every candidate fails, each with its own message
                 s.push_str(&format!("#ruledef\n{{\n    op5{i} {{v}} =>\n    {{\n        assert(v < 10, \"too big for the short form\")\n        0x10 @ v`8\n    }}\n    op5{i} {{v}} =>\n    {{\n        assert(v > 1000, \"too small for the long form\")\n        0x11 @ v`16\n    }}\n    op5{i} {{v: u4}} => 0x12 @ v @ 0x0`4\n    op5{i} {{v}} =>\n    {{\n        assert(v > 1000, \"too small for the long form\")\n        0x13 @ v`16\n    }}\n}}\nop5{i} {}\n", if clean { rng.pick(&["5", "7", "5"]) } else { rng.pick(&["500", "5", "2000", "12", "100"]) }, i = i));
+            }
+            23 if !clean => {
+                // an asm block with several different invalid declarations
+                let decls = ["        x{i} = 1\n", "        .y{i}:\n", "        #d8 1\n", "        z{i} = 2\n", "        .w{i}:\n"];
+                let mut body = String::new();
+                for k in 0..rng.range(2, 4) {
+                    body.push_str(&decls[(k + rng.below(2)) % decls.len()].replace("{i}", &i.to_string()));
+                }
+                s.push_str(&format!("#ruledef\n{{\n    nop6{i} => 0x00\n    bad6{i} => asm\n    {{\n{}        nop6{i}\n    }}\n}}\nbad6{i}\n", body, i = i));
+            }
+            24 if !clean => {
+                // a rule pattern that repeats parameter names
+                s.push_str(&format!("#ruledef\n{{\n    add7{i} {{dst}}, {{dst}}, {{src}}, {{src}} => 0x70 @ dst`8 @ src`8\n}}\nadd7{i} 1, 1, 2, 2\n", i = i));
             }
             22 if !clean && !banked => {
                 // a function where only a settled value can stand: a bank
